@@ -54,7 +54,7 @@ type Tables struct {
 // and whose cut points are pkg/expr and pkg/expr/exprtools.
 func NewRiscvInterp(prog *ssa.Program, sizes types.Sizes) *Interp {
 	in := New(prog, sizes)
-	in.Home = func(p string) bool { return p == RiscvPkg }
+	in.Home = func(p string) bool { return p == RiscvPkg || p == "mltwist/pkg/model" }
 	in.Cut = func(p string) (string, bool) {
 		switch p {
 		case "mltwist/pkg/expr":
